@@ -69,7 +69,12 @@ def _tract_init_unit():
 
 
 def units():
-    return [_unit(a) for a in ARRANGEMENTS] + [_tract_init_unit()]
+    from pyvc.api import borrow
+    from props import c12
+    # 'twp, rge, sec, number and direction attributes are exactly the decomposition of the string': the contract of
+    # TRS.trs_to_dict on standard-form / placeholder strings (C12's `decomposes` clause) is a callee contract of this property
+    return ([_unit(a) for a in ARRANGEMENTS] + [_tract_init_unit()]
+            + borrow(c12._to_dict_units(), 'C09', keep=lambda u: 'standard form' in u.name))
 
 
 # ======================================================================================================================
